@@ -7,171 +7,171 @@ HERE = os.path.dirname(os.path.dirname(os.path.abspath(__file__)))
 
 # property id -> (technique, level text, level note, design ref) ; only built checks are listed
 CHECKS = {
-    'C11': ('lock-step product exploration of the sync / async twins over the exhaustive generators of the other checks (differential '
-            'oracle): every input / transport script / choice sequence is executed on both halves and the observations compared',
-            'Dispatcher vs AsyncDispatcher (coroutines) vs AsyncDispatcher (plain functions) on the C01 value-shape / lexical / token '
-            'corpora, the C02 documents, the C03 failure table and the C12 middleware x handler x request configurations; AbstractClient vs '
-            'AbstractAsyncClient on every leaf of the C09 retry and C19 tracer choice trees (same choices replayed), every C08 response '
-            'document and the C07 notations: identical documents, codes, executions, events, results, exceptions and sleep sequences.',
-            'trusted: observation digests (mc/harness/clientrun.summarize, props/common_server.obs_key); KeyboardInterrupt and CancelledError are identified',
-            'DESIGN.md section 5, C11'),
-    'C20': ('explicit-state level-synchronous breadth-first search over operation histories on the real PjRpcMocker (patching real '
-            'sync and async clients) with canonical state hashing, lock-step with a dict-of-lists reference model plus a one-rotation '
-            'look-ahead oracle in every state',
-            'All histories of <= 4/5 operations over add (16 variants) / replace at each index / remove / remove endpoint / call positional, '
-            'named, unpatched method, id 0 / notification / batches over method pairs, 2 endpoints x 2 methods, passthrough off and on: '
-            'every answer (round-robin, once, request id, result / error / callback value, -32601, refusal / passthrough, element-wise '
-            'batches), the recorded calls and the next full rotation of answers equal the reference; sync and async agree.',
-            'trusted: reference model in props/c20.py; state merging by patch table is made sound by the look-ahead probe and the table-shape discriminator',
-            'DESIGN.md section 5, C20'),
-    'C12': ('exhaustive enumeration of middleware stacks x error-handler tables x request kinds on the real dispatchers, lock-step with '
-            'the reference server extended by an explicit middleware / handler layer; event logs compared',
-            'All stacks of 0..3/4 middlewares over {pass-through, short-circuit, request-rewriting, response-rewriting} x 9 handler tables '
-            '(generic / per-code / several per key / replacing the error, with handlers for the new code) x 18 request kinds x sync/async: '
-            'who ran, in which order, with which request, context and error, and the response, equal the reference.',
-            'trusted: reference layer in props/c12.py + mc/refmodel/server.py; middlewares and handlers do not raise',
-            'DESIGN.md section 5, C12'),
-    'C15': ('explicit-state breadth-first search over registration histories on real MethodRegistry objects with canonical state hashing, '
-            'lock-step with a dict reference model; every canonical state attached to both dispatchers and probed',
-            'All histories of total cost <= 4/6 over add / add(name) / add_methods / view / view(prefix) / merge (operands = reachable '
-            'registries, 3 levels) on prefixes None / a / a.b: registry contents equal the model after every step; every state attached to '
-            'Dispatcher and AsyncDispatcher: each registered name reaches its function, ~12 near misses per name and all private / dunder / '
-            'non-callable view members answer -32601.',
-            'trusted: canonicalisation (prefix, name->function map) - sound because a registry\'s future depends only on that map and its prefix',
-            'DESIGN.md section 5, C15'),
-    'C18': ('exhaustive enumeration of requests (media type x body x status function x path) against the three real HTTP integrations '
-            'in-process, differential against a twin dispatcher called directly and across integrations',
-            '{aiohttp, flask, werkzeug} x 26 media types x 15 bodies x 3 status-by-error functions x 3 path prefixes: documented types (with '
-            'parameters / any case) are relayed with the dispatcher\'s document, JSON content type and status_by_error(codes); nothing -> '
-            'empty 200; other types -> 415 as an HTTP reply without executing anything; non-UTF-8 -> 400.',
-            'trusted: werkzeug / flask test clients, aiohttp make_mocked_request + Application._handle (a raised HTTPException is the response)',
-            'DESIGN.md section 5, C18'),
+    'C01': ('exhaustive enumeration of request texts (all token strings up to a length bound, the full product of member alphabets, '
+            'lexical edge literals) on the real dispatchers; invariant checked on every execution',
+            'Every string of <= 5/6 tokens over a 12-token alphabet, the full product jsonrpc(10) x id(15) x method(19) x params(11) x '
+            'extra-member for single objects, all arrays up to length 3/4 over 24 element shapes (repeated / falsy ids, methods failing '
+            'before their body runs) under max_batch_size {None,0,1,2,n}, integer / float / escape / nesting / whitespace edge literals at '
+            '16 positions; six dispatcher flavours (sync, async, sequential-batch, coroutine-returning plain functions, all pluggable '
+            'classes replaced by counting subclasses): dispatch never raises and returns nothing or (strict-JSON response document, matching codes).',
+            'trusted: mc/jsonstrict.py (self-tested against json.loads), mc/refmodel/wire.py; texts outside the alphabets / bounds are not covered',
+            'DESIGN.md section 5, C01'),
+    'C02': ('exhaustive product enumeration of request documents on the real dispatchers, lock-step with a reference server model '
+            '(explicit-state, stateless) plus a compositionality oracle',
+            'Every single request over 8 element kinds x 15 id typings and every batch up to length 3/4 over 19 element types, every id '
+            'assignment over {1,"1",0,"",-1,absent,null} with a failing element at each position, max_batch_size around the length, six '
+            'dispatcher flavours (coroutine methods complete in reverse order): answer and executions equal the reference model, every '
+            'accepted batch equals its elements sent alone, configured pluggable classes are really used.',
+            'trusted: json.dumps/json.loads for building texts, mc/refmodel/server.py; nothing beyond the stated alphabets and lengths',
+            'DESIGN.md section 5, C02'),
+    'C03': ('exhaustive enumeration of the failure table (protocol errors x exception types x placement) and of the C01 text corpora on '
+            'the real dispatchers, lock-step with the reference server model',
+            'All protocol errors over 12 codes x 3 messages x 11 data shapes (base class, registered subclass, standard classes) and 20 '
+            'exception types (incl. the library\'s own non-protocol exceptions, unrenderable exceptions), as call / notification / at each '
+            'batch position, five dispatcher flavours; plus every C01 text judged by the strict JSON recogniser and the reference server: '
+            'codes -32700/-32600/-32601/-32602/-32603/-32000 as specified, application errors verbatim, no exception detail in the response.',
+            'trusted: mc/jsonstrict.py, mc/refmodel/server.py; message/data of library-generated errors are unconstrained (L4)',
+            'DESIGN.md section 5, C03'),
     'C04': ('exhaustive enumeration of generated programs (all valid python signatures up to a size bound) x all argument lists / '
             'mappings, executed on the real dispatchers; python\'s own binding of a twin function is the reference',
             'All signatures with <= 4/5 parameters over positional-only / positional-or-keyword / keyword-only / *args / **kw x defaults, '
-            'context parameter none / by name at every position / first positional / view constructor, function / coroutine / view '
-            'method, with every positional list of length 0..5 and every named mapping over subsets of names + unknown + context name: '
-            'the method sees exactly what a direct call binds plus the server context, result unchanged, unbindable -> -32602 without execution.',
+            'context parameter none / by name at every position / first positional (also positional-only) / view constructor (also with a '
+            'coinciding name), function / coroutine / view method, registered directly or through a merged registry, truthy and falsy '
+            'context objects, the same function registered twice and a sibling with an equal signature; every positional list of length 0..5 '
+            '(incl. null / 0 / "" values) and every named mapping over subsets of names + unknown + context name.',
             'trusted: CPython function call semantics as oracle; variadic / positional-only signatures are open known findings',
             'DESIGN.md section 5, C04'),
-    'C14': ('exhaustive enumeration of validated programs (signature x schema fragments / annotations) x argument values on the real '
-            'dispatchers; reference = python binding + a small evaluator of the schema fragment language / pydantic.TypeAdapter',
-            'jsonschema: signatures <= 2/3 params x fragments {type, enum, bounds} x required subsets x additionalProperties x exclusion '
-            'predicate x all argument tuples over a 12-value alphabet, positional and named; pydantic: 9 annotations (1-2 params) x '
-            'coerce on/off x 19 values: executed iff binds and conforms, else -32602 with JSON data and no execution; arguments '
-            'unchanged / coerced; excluded parameters not settable.',
-            'trusted: 30-line fragment evaluator, pydantic.TypeAdapter for single values',
-            'DESIGN.md section 5, C14'),
-    'C16': ('exhaustive enumeration of ordered method sets x annotation bundles x extractor stacks x document kinds with repeated '
-            'generation on the real spec generators; invariants + differential (method documented alone) + official meta-schemas',
-            'Ordered sets of 1..2/3 atoms from a 14-atom core (thorough: pairs from a 61-atom product) x 5 extractor stacks x {OpenAPI 3.1, '
-            '3.0, OpenRPC} x endpoint prefixes x 2-3 generations: JSON-encodable, valid against the vendored official meta-schema '
-            '(jsonschema 4, second stage), no dangling $ref, every method once under name/path, identical on repetition, annotations and '
-            'user objects unchanged, each entry equal to the entry when documented alone.',
-            'trusted: jsonschema 4.26 of the tooling venv and the vendored meta-schemas; annotation types outside the atom alphabet not covered',
-            'DESIGN.md section 5, C16'),
-    'C17': ('exhaustive enumeration of programs (signatures x context / exclusion x function / view) with documents generated by the real '
-            'spec generators fed back: every params object derived from the document is dispatched to the real dispatcher',
-            'All signatures with <= 4/5 pk/ko parameters x defaults x context {none, by name, positional} x exclusion predicate x function / '
-            'view method: documented names and required flags (OpenAPI request schema, OpenRPC params list) equal what python binds; every '
-            'params object over subsets of documented + undocumented + context + excluded names is refused with -32602 iff it violates the '
-            'published names / required list.',
-            'trusted: the resolver of $ref inside the generated document (props/c17.py)',
-            'DESIGN.md section 5, C17'),
+    'C05': ('exhaustive enumeration of constructible messages over a closed JSON value alphabet, round-tripped through both '
+            'encoders on the real classes; field-wise, wire-exactness, fixpoint and error-class oracles',
+            'Every request / response / error / batch over a value alphabet closed under list/object construction, all id typings, all '
+            'registered (incl. code 0) and several unregistered codes, empty messages, absent vs null data, four error base classes '
+            '(default, custom, two documented self-resolving hierarchies), batches of <= 4/5 elements and batch-level errors: serialise '
+            '(two encoders) -> text -> deserialise gives equal fields, exact member sets, the right error class, an identical second wire form.',
+            'trusted: json.dumps/json.loads, mc/jsonstrict.py; values outside the alphabet are not covered',
+            'DESIGN.md section 5, C05'),
+    'C06': ('exhaustive product enumeration of member alphabets for from_json plus stateless DFS over all append/extend '
+            'histories of the real batch classes in lock-step with a list+set reference model (no state merging)',
+            'Full product of 17-value member alphabets for request, response (x 19 error shapes) and error objects, every non-object input, '
+            'batches of <= 3 elements, batch-level objects: outcome is a message or DeserializationError (IdentityError for duplicates), '
+            'invalid never accepted, valid accepted with equal fields. All append/extend/constructor histories with <= 5/6 ids over '
+            '{1,2,"1",0,null}, strict on/off, both batch classes: outcome and contents equal the model after every step.',
+            'trusted: mc/refmodel/wire.py; lenient points L2, missing response id, empty response array',
+            'DESIGN.md section 5, C06'),
     'C07': ('exhaustive enumeration of call notations x configurations with the random id generators as environment choice points '
             '(all answers enumerated), real client wired to the real dispatcher in-process; the registered python function called '
             'directly is the reference',
-            '5 single-call notations and 5 batch notations x 4 sync/async client-dispatcher pairings x 6 id generators x strict '
-            'on/off x 4 method behaviours x argument shapes; all call/notify strings up to length 3/4: one valid request document '
-            'per send with distinct ids, caller gets the direct call\'s value / typed exception, every function runs once, '
-            'notations interchangeable, id collisions of random generators surface as IdentityError at build time.',
+            '5 single-call and 6 batch notations x 4 sync/async pairings x 7 id generators (incl. ids from 0) x strict on/off x 9 method '
+            'behaviours (typed / falsy-data / hierarchy / unregistered errors, library and ordinary exceptions, underscore names) x '
+            'argument shapes; all call/notify strings up to length 4: one valid request document per send with distinct ids, caller gets the '
+            'direct call\'s value / typed exception, every function runs once, notations interchangeable, id collisions surface at build time.',
             'trusted: direct python call + JSON normalisation as oracle; random.randint / random.choice / uuid.uuid4 replaced by the explorer',
             'DESIGN.md section 5, C07'),
-    'C10': ('exhaustive schedule enumeration on a virtual asyncio event loop: every order in which the pending suspension points '
-            '(gates) of methods, middlewares and error handlers can complete is executed on the real AsyncDispatcher',
-            'Batches of 1..4 elements (quick: 4 over 5 kinds; thorough: 4 over all 14 types, 5 over 4 kinds) with 0..2 suspension points per element, '
-            'failing / notification / plain-function / unknown-method elements, middleware and error-handler gates, concurrent and '
-            'sequential mode: responses in request order with own id and payload, every method once, no deadlock; sequential '
-            'mode never has two elements in flight.',
-            'trusted: mc/vloop.py (FIFO ready queue as asyncio guarantees, stock Task/gather/Future); suspension only at gates',
-            'DESIGN.md section 5, C10'),
-    'C13': ('(a) exhaustive enumeration of request histories without state merging, differential against a fresh dispatcher; '
-            '(b) invariant over growing histories with weak references and cache sizes; (c) CHESS-style exhaustive thread '
-            'interleaving exploration with preemption bounding (sys.settrace line-level scheduler over real threads)',
-            'All histories of length <= 2/3 over 18 requests followed by all probes on one dispatcher equal the fresh answers; after '
-            '1110 dispatches no context / view / per-request object is alive and caches do not grow; 12 request pairs on 2 threads '
-            '(<= 2 preemptions) and 3 triples on 3 threads (<= 1 preemption) on a shared Dispatcher, a switch possible at every '
-            'pjrpc source line: each thread gets its solo answer and its own context.',
-            'trusted: mc/threadsched.py (self-tested on a planted lost update); GIL-atomic C code is outside the model; no pools beyond 3 threads',
-            'DESIGN.md section 5, C13'),
     'C08': ('exhaustive enumeration of every response document an adversarial server can return (environment choice '
             'exploration) against the real sync/async client, judged by a reference id-matcher',
-            'For batches of 1..3/4 calls: every response array of length 0..n+1 over {id of call i, unknown id, type-confused '
-            'id, null} x {success, error} (all permutations, omissions, duplications, additions), junk elements at every '
-            'position, non-array bodies, batch-level errors; single calls over 6 request ids x 5 id relations x 5 payloads; '
-            'strict on/off, sync/async, call/send: strict mismatches raise IdentityError, invalid bodies DeserializationError, '
+            'For batches of 1..3/4 calls (ids from 1 and from 0): every response array of length 0..n+1 over {id of call i, unknown id, '
+            'type-confused id, null} x {success, error}, junk / boolean-id elements at every position, non-array bodies, batch-level '
+            'errors; single calls over 6 request ids x 5 id relations x 6 payloads; strict on/off, sync/async, call/send, custom '
+            'pluggable classes and error hierarchies: strict mismatches raise IdentityError, invalid bodies DeserializationError, '
             'accepted results are attributed to the calls in call order and linked to their requests.',
             'trusted: reference matcher inside props/c08.py; L6 null-id entries; which of several element errors is raised is free',
             'DESIGN.md section 5, C08'),
     'C09': ('stateless exploration of the complete tree of per-attempt transport outcomes (environment choice points) for every '
             'retry configuration on the real sync/async client, lock-step with a reference retry/backoff model',
-            'attempts 0..3/5 x code sets x exception sets x {single, batch, notification, all-notification batch} x sync/async with '
-            'all outcome sequences; 60 backoff parameterisations x attempts 0..3/6; 7 strategy placements: number and identity of '
-            'sends, every requested pause (time.sleep / asyncio.sleep recorders, virtual clock) and the object reaching the '
-            'caller equal the reference.',
+            'attempts 0..4/6 x code sets x exception sets x {single, batch, notification, all-notification batch} x sync/async with '
+            'all outcome sequences; 80 backoff parameterisations (caps incl. 0, scripted jitter) x attempts 0..3/6; 7 strategy placements: '
+            'number and identity of sends, every requested pause (time.sleep / asyncio.sleep recorders, virtual clock) and the object '
+            'reaching the caller equal the reference.',
             'trusted: reference model in props/c09.py; time.sleep and asyncio.sleep are the only clocks; L7 Fibonacci indexing',
             'DESIGN.md section 5, C09'),
+    'C10': ('exhaustive schedule enumeration on a virtual asyncio event loop: every order in which the pending suspension points '
+            '(gates) of methods, middlewares and error handlers can complete is executed on the real AsyncDispatcher',
+            'Batches of 1..4 elements (thorough: 4 over all 16 types, 5 over 4 kinds) with 0..2 suspension points per element, failing / '
+            'notification / plain-function / unknown-method / stateful-view elements, coroutine and plain-function middlewares, error-handler '
+            'gates, concurrent and sequential mode: responses in request order with own id and payload, every method and middleware once, '
+            'no deadlock; sequential mode never has two elements in flight.',
+            'trusted: mc/vloop.py (FIFO ready queue as asyncio guarantees, stock Task/gather/Future); suspension only at gates',
+            'DESIGN.md section 5, C10'),
+    'C11': ('lock-step product exploration of the sync / async twins over the exhaustive generators of the other checks (differential '
+            'oracle): every input / transport script / choice sequence is executed on both halves and the observations compared',
+            'Dispatcher vs AsyncDispatcher (coroutines / plain functions / sequential batches) on the C01 corpora, the C02 documents, the '
+            'C03 failure table and the C12 configurations; AbstractClient vs AbstractAsyncClient on every leaf of the C09 and C19 choice '
+            'trees (same choices replayed), every C08 response document, the C07 notations and two deliveries through one batch wrapper: '
+            'identical documents, codes, executions, events, results, exceptions and sleep sequences.',
+            'trusted: observation digests (clientrun.summarize, common_server.obs_key); KeyboardInterrupt and CancelledError are identified',
+            'DESIGN.md section 5, C11'),
+    'C12': ('exhaustive enumeration of middleware stacks x error-handler tables x request kinds on the real dispatchers, lock-step with '
+            'the reference server extended by an explicit middleware / handler layer; event logs compared',
+            'All stacks of 0..4/5 middlewares over {pass-through, short-circuit, request-rewriting, response-rewriting} x 9 handler tables x '
+            '18 request kinds x sync / async / async sequential; lists and one-shot iterables; every request served twice by the same '
+            'dispatcher: who ran, in which order, with which request, context and error, and the response, equal the reference both times.',
+            'trusted: reference layer in props/c12.py + mc/refmodel/server.py; middlewares and handlers do not raise',
+            'DESIGN.md section 5, C12'),
+    'C13': ('(a) exhaustive enumeration of request histories without state merging, differential against a fresh dispatcher; '
+            '(b) invariant over growing histories with weak references and cache sizes; (c) CHESS-style exhaustive thread '
+            'interleaving exploration with preemption bounding (sys.settrace line-level scheduler over real threads)',
+            'All histories of length <= 2/3 over 33 requests (functions, context / context-less / validated views, shared validators, '
+            'handlers) followed by all probes equal the fresh answers; after 1110 dispatches (same request or all different) no context / '
+            'view / per-request object is alive and nothing grows; 19 request pairs on 2 threads (<= 2 preemptions) and 3 triples on 3 '
+            'threads (<= 1) on a shared Dispatcher, a switch possible at every pjrpc source line: each thread gets its solo answer.',
+            'trusted: mc/threadsched.py (self-tested on a planted lost update); GIL-atomic C code is outside the model; no pools beyond 3 threads',
+            'DESIGN.md section 5, C13'),
+    'C14': ('exhaustive enumeration of validated programs (signature x schema fragments / annotations) x argument values on the real '
+            'dispatchers; reference = python binding + a small evaluator of the schema fragment language / pydantic.TypeAdapter',
+            'jsonschema: signatures <= 2/3 params x fragments {type, enum, bounds} x required subsets x additionalProperties x exclusion '
+            'predicate x all argument tuples; pydantic: 10 annotations (custom validators, None / mutable defaults) x coerce on/off x 21 '
+            'values; context parameter under each validator, double registration, several validator objects, same-named methods, view '
+            'methods with predicates: executed iff binds and conforms, else -32602 with JSON data and no execution.',
+            'trusted: 30-line fragment evaluator, pydantic.TypeAdapter for single values',
+            'DESIGN.md section 5, C14'),
+    'C15': ('explicit-state breadth-first search over registration histories on real MethodRegistry objects with canonical state hashing, '
+            'lock-step with a dict reference model; every canonical state attached to both dispatchers and probed',
+            'All histories of total cost <= 5/6 over add / add(name) / add_methods / view / view(prefix) / decorator spellings / base and '
+            'derived views / merge (operands = reachable registries, 3 levels) on prefixes None / a / a.b: registry contents equal the model '
+            'after every step; every state attached (also twice, modified in between) to both dispatchers: each registered name reaches its '
+            'function, near misses and private / dunder / non-callable view members answer -32601.',
+            'trusted: canonicalisation (prefix, name->function map) - sound because a registry\'s future depends only on that map and its prefix',
+            'DESIGN.md section 5, C15'),
+    'C16': ('exhaustive enumeration of ordered method sets x annotation bundles x extractor stacks x document kinds with repeated '
+            'generation on the real spec generators; invariants + differential (method documented alone, fresh generator) + official meta-schemas',
+            'Ordered sets of 1..2/3 atoms from a 16-atom core (thorough: pairs from a 61-atom product) x 6 extractor stacks x {OpenAPI 3.1, '
+            '3.0, OpenRPC} x endpoint prefixes / several endpoints x status-map / global-prefix variants x 2-3 generations, re-used '
+            'specification objects (A, B, A, A+B, B), late error classes, aliases: JSON-encodable, valid against the vendored meta-schema '
+            '(jsonschema 4, second stage), closed $refs, every method once, pure, each entry equal to the entry when documented alone.',
+            'trusted: jsonschema 4.26 of the tooling venv and the vendored meta-schemas; annotation types outside the atom alphabet not covered',
+            'DESIGN.md section 5, C16'),
+    'C17': ('exhaustive enumeration of programs (signatures x context / exclusion x function / view x validator) with documents generated '
+            'by the real spec generators fed back: every params object derived from the document is dispatched to the real dispatcher',
+            'All signatures with <= 5/6 pk/ko parameters x defaults x nullable annotation x context {none, by name, positional} x exclusion '
+            'predicate (by name, by Annotated marker) x function / view x {default, pydantic, pydantic extra=ignore} validators, double '
+            'registration: documented names and required flags (OpenAPI, OpenRPC) equal what python binds; every params object over subsets '
+            'of documented + undocumented + context + excluded names (also with a null member) is refused with -32602 iff it violates the published schema.',
+            'trusted: the resolver of $ref inside the generated document (props/c17.py)',
+            'DESIGN.md section 5, C17'),
+    'C18': ('exhaustive enumeration of requests (media type x body x status function x path / endpoint) against the real HTTP integrations '
+            'in-process, differential against a twin dispatcher called directly and across integrations',
+            '{aiohttp, flask, werkzeug, werkzeug via wsgi_app} x 26 media types x 15 bodies x 4 status-by-error functions x 3 paths, '
+            'additional endpoints (plain, sub-application / blueprint, child application, main endpoint among siblings): documented types '
+            'are relayed with the dispatcher\'s document, JSON content type and status_by_error(codes); nothing -> empty 200; other types -> '
+            '415 as an HTTP reply without executing anything; non-UTF-8 -> 400.',
+            'trusted: werkzeug / flask test clients, aiohttp make_mocked_request + Application._handle (a raised HTTPException is the response)',
+            'DESIGN.md section 5, C18'),
     'C19': ('stateless exploration of the complete tree of per-attempt outcomes incl. decode / identity failures and BaseException '
             'on the real sync/async client; invariant on the tracer event log of every execution',
-            'retry strategies of 0..2/3 attempts x 0..3 tracers x 4 request kinds x default/supplied trace context x sync/async: '
-            'every attempt has, for every tracer in configuration order, one begin and exactly one completion (end with the '
-            'attempt\'s response or error with the very exception), one context object per attempt, exception reaches the caller unchanged.',
+            'retry strategies of 0..3/4 attempts x 0..3 tracers (full, begin/end only, super-chaining, equal-but-distinct) x 4 request kinds x '
+            'default/supplied trace context x sync/async x call / send / client(...) / proxy, also from inside an except block: every attempt '
+            'has, for every tracer in order, one begin and exactly one completion (end with the attempt\'s response or error with the very '
+            'exception), one context object per attempt, exception reaches the caller unchanged.',
             'trusted: instrumented Tracer subclasses; cancellation is modelled as CancelledError raised at the transport await',
             'DESIGN.md section 5, C19'),
-    'C05': ('exhaustive enumeration of constructible messages over a closed JSON value alphabet, round-tripped through both '
-            'encoders on the real classes; field-wise, wire-exactness, fixpoint and error-class oracles',
-            'Every request / response / error / batch over a value alphabet closed once under list/object construction, all id '
-            'typings, all registered and several unregistered codes incl. 0, empty messages, absent vs null data, default and '
-            'custom error base class, batches of <= 3/4 elements and batch-level errors: serialise (two encoders) -> text -> '
-            'deserialise gives equal fields, the exact member sets, the registered error class, and an identical second wire form.',
-            'trusted: json.dumps/json.loads, mc/jsonstrict.py; values outside the alphabet are not covered',
-            'DESIGN.md section 5, C05'),
-    'C06': ('exhaustive product enumeration of member alphabets for from_json plus stateless DFS over all append/extend '
-            'histories of the real batch classes in lock-step with a list+set reference model (no state merging)',
-            'Full product of 17-value member alphabets for request (jsonrpc x id x method x params), response (x 19 error '
-            'shapes) and error objects, every non-object input, batches of <= 3 elements, batch-level objects: outcome is a '
-            'message or DeserializationError (IdentityError for duplicates), invalid never accepted, valid accepted with equal '
-            'fields. All append/extend/constructor histories with <= 4/5 ids over {1,2,"1",0,null}, strict on/off, both batch '
-            'classes: outcome and contents equal the model after every step (so a failed operation leaves no trace).',
-            'trusted: wire predicates mc/refmodel/wire.py; lenient points L2 (fractional ids, integral float codes), missing '
-            'response id, empty response array',
-            'DESIGN.md section 5, C06'),
-    'C01': ('exhaustive enumeration of request texts (all token strings up to a length bound, the full product of member '
-            'alphabets, lexical edge literals) on the real dispatchers; invariant checked on every execution',
-            'Every string of <= 4/6 tokens over a 12-token JSON-RPC alphabet, the full product jsonrpc x id x method x '
-            'params x extra-member for single objects, all arrays up to length 3/4 over a 14-element alphabet under '
-            'max_batch_size {None,0,1,2,n}, and integer/float/escape/nesting/whitespace edge literals at 14 positions, '
-            'for both dispatchers: dispatch never raises and returns nothing or (strict-JSON response document, matching codes).',
-            'trusted: the strict RFC 8259 recogniser mc/jsonstrict.py (self-tested against json.loads) and the wire '
-            'predicates mc/refmodel/wire.py; texts outside the alphabets / bounds are not covered',
-            'DESIGN.md section 5, C01'),
-    'C03': ('exhaustive enumeration of the failure table (protocol errors x exception types x placement) and of the C01 text '
-            'corpora on the real dispatchers, lock-step with the reference server model',
-            'All protocol errors over 12 codes x 3 messages x 11 data shapes (base class, registered subclass, standard '
-            'classes) and 13 exception types, as call / notification / at each batch position, sync / async / plain function '
-            'under the async dispatcher; plus every C01 text judged by the strict JSON recogniser and the reference server: '
-            'codes -32700/-32600/-32601/-32602/-32000 as specified, application errors verbatim, no exception detail in the response.',
-            'trusted: mc/jsonstrict.py, mc/refmodel/server.py; message/data of library-generated errors are unconstrained (L4)',
-            'DESIGN.md section 5, C03'),
-    'C02': ('exhaustive product enumeration of request documents on the real dispatchers, lock-step with a '
-            'reference server model (explicit-state, stateless)',
-            'Every single request over 7 element kinds x 15 id typings and every batch up to length 3 (quick) / 4 '
-            '(thorough) over 17 element types, every id assignment over {1,"1",0,"",-1,absent,null} with a failing '
-            'element at each position, max_batch_size around the length, both dispatchers: answer and executions '
-            'equal the reference model, and every accepted batch equals its elements sent alone.',
-            'trusted: json.dumps/json.loads for building texts, the 60-line reference server (mc/refmodel/server.py); '
-            'nothing beyond the stated alphabets and lengths is covered',
-            'DESIGN.md section 5, C02'),
+    'C20': ('explicit-state level-synchronous breadth-first search over operation histories on the real PjRpcMocker (patching real '
+            'sync and async clients) with canonical state hashing, lock-step with a dict-of-lists reference model plus a one-rotation '
+            'look-ahead oracle in every state',
+            'All histories of <= 4/5 operations over add (18 variants incl. raising callbacks) / replace at each index (also -1, once, error, '
+            'callback) / remove / remove endpoint / call positional, named, unpatched method, id 0 / notification / batches over method '
+            'pairs, 2 endpoints x 2 methods, passthrough off and on: every answer, the recorded calls and the next full rotation of answers '
+            'equal the reference; sync and async agree.',
+            'trusted: reference model in props/c20.py; state merging by patch table is made sound by the look-ahead probe and the table-shape discriminator',
+            'DESIGN.md section 5, C20'),
 }
 
 NOT_YET = 'check not built yet (planned, see DESIGN.md section 5)'
